@@ -617,7 +617,8 @@ async fn create_session(State(state): State<AppState>) -> impl IntoResponse {
     request_body = InputPayload,
     responses(
         (status = 202, description = "Input accepted"),
-        (status = 404, description = "Session not found")
+        (status = 404, description = "Session not found"),
+        (status = 409, description = "Session already received its input")
     )
 )]
 async fn send_input(
@@ -632,6 +633,10 @@ async fn send_input(
             None => return StatusCode::NOT_FOUND.into_response(),
         }
     };
+
+    if !handle.claim_start() {
+        return StatusCode::CONFLICT.into_response();
+    }
 
     state
         .engine
